@@ -22,6 +22,13 @@ impl<Out> FilterFn<Out> {
     }
 }
 
+#[cfg(feature = "verif")]
+impl<Out> From<fn(&Out) -> bool> for FilterFn<Out> {
+    fn from(f: fn(&Out) -> bool) -> Self {
+        FilterFn(f)
+    }
+}
+
 impl<Out> Debug for FilterFn<Out> {
     fn fmt(&self, f: &mut std::fmt::Formatter<'_>) -> std::fmt::Result {
         f.debug_tuple("FilterFn")
